@@ -11,8 +11,9 @@
                                              by_value, borrow(_mut)_with_settings, with_settings, claim,
                                              pool.get*, collection `into_*`, trait forms of the alloc family
       coll v h m                             `BumpVec::new_in(&h)` / `MutBumpVec::new_in(&mut h)`
-      enter s g h op owner name … exit r x   `let x = h.scoped(|s| { … r })`  (scoped, scoped_aligned, aligned;
-                                             `g` names the implicit guard / reborrow the call holds)
+      enter s g h op owner name … exit r     `let r = h.scoped(|s| { … r })`  (scoped, scoped_aligned, aligned;
+                                             `g` names the implicit guard / reborrow the call holds; the value
+                                             handed out keeps its name)
       use x | drop x                         `touch(&x)` / `drop(x)`  (every drop is explicit)
       slot o | store o x                     `let mut o = None` / `o = Some(x)`  (outer variable)
       send x | share x                       move `x` into / share `&x` with a scoped thread that uses it
@@ -108,7 +109,7 @@ inductive Stmt
   | call (x h : Var) (op : Op) (owner name : String)
   | coll (v h : Var) (m : Mode)
   | enter (s g h : Var) (op : Op) (owner name : String)
-  | exit (ret : Option Var) (x : Var)
+  | exit (ret : Option Var)
   | use (x : Var)
   | drop (x : Var)
   | slot (o : Var)
@@ -147,8 +148,10 @@ def SEnv.lookupValid (Γ : SEnv) (v : Var) : Except Rej Entry :=
   | none => .error .unknown
   | some e => if e.valid then .ok e else .error .dead
 
-def killEnts (p : Loan → Bool) (es : List Entry) : List Entry :=
-  es.map fun e => if e.self.any p then { e with valid := false } else e
+/-- invalidate the entry if its region holds a loan satisfying `p` -/
+def kill1 (p : Loan → Bool) (e : Entry) : Entry := if e.self.any p then { e with valid := false } else e
+
+def killEnts (p : Loan → Bool) (es : List Entry) : List Entry := es.map (kill1 p)
 
 /-- a shared use of `v` ends the outstanding mutable loans on it -/
 def SEnv.useShr (Γ : SEnv) (v : Var) : SEnv := { Γ with ents := killEnts (·.mutOn v) Γ.ents }
@@ -276,103 +279,153 @@ def Loan.depthOK (Γ : SEnv) (d : Nat) : Loan → Bool
       | some i => i + 1 ≤ d
       | none => false
 
-/-- which kind of hidden entry an `enter` creates, and what region the closure parameter allocates with -/
-def closureParam (e : Entry) (op : Op) (cl : List Lt) : Option (Kind × Acc × Region × (Region → Region)) :=
-  let gself : Region := .borrow e.var .mut :: e.self
-  match op, cl with
-  | .enterScoped, [.closure, .closure] => some (.guard, .own, gself, fun sself => sself)
-  | .enterAligned, [.closure, .closure] => some (.scope, .mutRef, gself, fun sself => sself)
-  | .enterAligned, [.closure, .param] => some (.scope, .mutRef, gself, fun _ => e.param)
-  | .enterScoped, [.closure, .param] => some (.guard, .own, gself, fun _ => e.param)    -- (rejected by SigOK)
+/-- shape of a closure-taking method: (does it open a scope?, does the closure parameter allocate with the receiver's
+    real allocation lifetime?) -/
+def closureShape : Op → List Lt → Option (Bool × Bool)
+  | .enterScoped, [.closure, .closure] => some (true, false)
+  | .enterScoped, [.closure, .param] => some (true, true)       -- (rejected by `sigOK`)
+  | .enterAligned, [.closure, .closure] => some (false, false)
+  | .enterAligned, [.closure, .param] => some (false, true)
   | _, _ => none
 
 def locals (Γ : SEnv) : List Var := (Γ.ents.filter (fun e => e.depth == Γ.depth)).map (·.var)
 
+def checkCall (t : Table) (Γ : SEnv) (x h : Var) (op : Op) (owner name : String) : Except Rej SEnv :=
+  match t.lookup owner name with
+  | none => .error .notApplicable
+  | some sig =>
+    if sig.op != op || op == .enterScoped || op == .enterAligned then .error .illformed else
+    match Γ.lookupValid h with
+    | .error r => .error r
+    | .ok e =>
+      if !applicable t sig.ownerK e then .error .notApplicable else
+      -- `claim(&self)` is typed as an exclusive borrow (see the file header)
+      let recv := if sig.ret == .claimGuard then .refMut else sig.recv
+      match Γ.access e recv with
+      | .error r => .error r
+      | .ok Γ1 =>
+        match mkResult x Γ.depth e recv.mode sig.ret sig.lts with
+        | none => .error .illformed
+        | some none => .ok Γ1
+        | some (some ne) => Γ1.declare ne
+
+/-- may a collection be built over this handle, and is its allocation lifetime the lifetime of the reference
+    (`&'a Bump`) rather than the handle's own parameter? -/
+def collParamIsSelf (t : Table) (k : Kind) (m : Mode) : Option Bool :=
+  match k, m with
+  | .bump, .shr => if t.implLt .refBump == some .refLt then some true else none
+  | .bump, .mut => if t.implLt .refMutBump == some .refLt then some true else none
+  | .scope, .shr => if t.implLt .scope == some .own && t.implLt .refB == some .forward then some false else none
+  | .scope, .mut => if t.implLt .scope == some .own && t.implLt .refMutB == some .forward then some false else none
+  | _, _ => none
+
+def checkColl (t : Table) (Γ : SEnv) (v h : Var) (m : Mode) : Except Rej SEnv :=
+  match Γ.lookupValid h with
+  | .error r => .error r
+  | .ok e =>
+    match collParamIsSelf t e.kind m with
+    | none => .error .notApplicable
+    | some paramIsSelf =>
+      match Γ.access e (match m with | .shr => .ref | .mut => .refMut) with
+      | .error r => .error r
+      | .ok Γ1 =>
+        let s : Region := .borrow e.var m :: e.self
+        Γ1.declare ⟨v, .coll, (match m with | .shr => .shrRef | .mut => .mutRef), s, if paramIsSelf then s else e.param, true, Γ.depth⟩
+
+def checkEnter (t : Table) (Γ : SEnv) (s g h : Var) (op : Op) (owner name : String) : Except Rej SEnv :=
+  match t.lookup owner name with
+  | none => .error .notApplicable
+  | some sig =>
+    if sig.op != op || sig.ret != .closureResult then .error .illformed else
+    match Γ.lookupValid h with
+    | .error r => .error r
+    | .ok e =>
+      if !applicable t sig.ownerK e then .error .notApplicable else
+      match closureShape op sig.cl with
+      | none => .error .illformed
+      | some (opens, realParam) =>
+        match Γ.access e sig.recv with
+        | .error r => .error r
+        | .ok Γ1 =>
+          -- the implicit guard (scoped) / reborrow (aligned) the call holds on its receiver
+          let gself : Region := .borrow e.var sig.recv.mode :: e.self
+          let ge : Entry := if opens then ⟨g, .guard, .own, gself, gself, true, Γ.depth⟩
+                            else ⟨g, .scope, .mutRef, gself, e.param, true, Γ.depth⟩
+          match Γ1.declare ge with
+          | .error r => .error r
+          | .ok Γ2 =>
+            let sself : Region := .frame g :: .borrow g .mut :: gself
+            ({ Γ2 with frames := g :: Γ2.frames } : SEnv).declare
+              ⟨s, .scope, .mutRef, sself, if realParam then e.param else sself, true, Γ.depth + 1⟩
+
+def checkExit (Γ : SEnv) (ret : Option Var) : Except Rej SEnv :=
+  match Γ.frames with
+  | [] => .error .illformed
+  | g :: rest =>
+    -- the locals of the closure body go away (the value handed out keeps its name) …
+    let ls := (locals Γ).filter (fun v => some v != ret)
+    let Γ1 := ls.foldl (fun Γ v => Γ.remove v) { Γ with frames := rest }
+    -- … the implicit guard / reborrow of the call must still be intact (the receiver and its ancestors
+    -- were not touched inside the closure body) and ends now …
+    match Γ1.find g with
+    | none => .error .illformed
+    | some eg =>
+      if !eg.valid then .error .dead else
+      let Γ2 := Γ1.remove g
+      -- … and what is handed out must have survived all of that
+      match ret with
+      | none => .ok Γ2
+      | some r =>
+        match Γ2.find r with
+        | none => .error .unknown
+        | some e =>
+          if e.kind != .val then .error .illformed
+          else if !e.valid then .error .escape
+          else .ok { Γ2 with ents := Γ2.ents.map fun e => if e.var == r then { e with depth := min e.depth rest.length } else e }
+
+def checkStore (Γ : SEnv) (o x : Var) : Except Rej SEnv :=
+  match Γ.lookupValid o with
+  | .error r => .error r
+  | .ok eo =>
+    match Γ.lookupValid x with
+    | .error r => .error r
+    | .ok ex =>
+      if eo.kind != .val || ex.kind != .val || o == x then .error .illformed
+      else if !ex.self.all (Loan.depthOK Γ eo.depth) then .error .escape
+      else
+        let Γ1 := Γ.remove x
+        .ok { Γ1 with ents := Γ1.ents.map fun e => if e.var == o then { e with self := e.self ++ ex.self, param := e.param ++ ex.self } else e }
+
 def checkStmt (t : Table) (fl : Flags) (Γ : SEnv) : Stmt → Except Rej SEnv
   | .newBump b => Γ.declare ⟨b, .bump, .own, [], [], true, Γ.depth⟩
   | .newPool p => Γ.declare ⟨p, .pool, .own, [], [], true, Γ.depth⟩
-  | .call x h op owner name => do
-      let sig ← match t.lookup owner name with | some s => pure s | none => throw .notApplicable
-      if sig.op != op || op == .enterScoped || op == .enterAligned then throw .illformed
-      let e ← Γ.lookupValid h
-      if !applicable t sig.ownerK e then throw .notApplicable
-      -- `claim(&self)` is typed as an exclusive borrow (see the file header)
-      let recv := if sig.ret == .claimGuard then .refMut else sig.recv
-      let Γ1 ← Γ.access e recv
-      match mkResult x Γ.depth e recv.mode sig.ret sig.lts with
-      | none => throw .illformed
-      | some none => pure Γ1
-      | some (some ne) => Γ1.declare ne
-  | .coll v h m => do
-      let e ← Γ.lookupValid h
-      let paramIsSelf ← match e.kind, m with
-        | .bump, .shr => if t.implLt .refBump == some .refLt then pure true else throw .notApplicable
-        | .bump, .mut => if t.implLt .refMutBump == some .refLt then pure true else throw .notApplicable
-        | .scope, .shr => if t.implLt .scope == some .own && t.implLt .refB == some .forward then pure false else throw .notApplicable
-        | .scope, .mut => if t.implLt .scope == some .own && t.implLt .refMutB == some .forward then pure false else throw .notApplicable
-        | _, _ => throw .notApplicable
-      let Γ1 ← Γ.access e (match m with | .shr => .ref | .mut => .refMut)
-      let s : Region := .borrow h m :: e.self
-      Γ1.declare ⟨v, .coll, (match m with | .shr => .shrRef | .mut => .mutRef), s, if paramIsSelf then s else e.param, true, Γ.depth⟩
-  | .enter s g h op owner name => do
-      let sig ← match t.lookup owner name with | some s => pure s | none => throw .notApplicable
-      if sig.op != op || sig.ret != .closureResult then throw .illformed
-      let e ← Γ.lookupValid h
-      if !applicable t sig.ownerK e then throw .notApplicable
-      let Γ1 ← Γ.access e sig.recv
-      match closureParam e op sig.cl with
-      | none => throw .illformed
-      | some (gk, ga, gself, sparam) =>
-        let Γ2 ← Γ1.declare ⟨g, gk, ga, gself, (match gk with | .guard => gself | _ => e.param), true, Γ.depth⟩
-        let sself : Region := .frame g :: .borrow g .mut :: gself
-        let Γ3 := { Γ2 with frames := g :: Γ2.frames }
-        Γ3.declare ⟨s, .scope, .mutRef, sself, sparam sself, true, Γ.depth + 1⟩
-  | .exit ret x =>
-      match Γ.frames with
-      | [] => .error .illformed
-      | g :: rest => do
-        -- the implicit guard / reborrow of the call must still be intact (the receiver and its ancestors
-        -- were not touched inside the closure body)
-        match Γ.find g with
-        | none => throw .illformed
-        | some eg => if !eg.valid then throw .dead
-        let ls := locals Γ
-        -- the value handed out of the closure
-        let r ← match ret with
-          | none => pure none
-          | some r => do
-              let e ← Γ.lookupValid r
-              if e.kind != .val then throw .illformed
-              if e.self.any (fun l => l == .frame g || (ls ++ [g]).any (fun v => v != r && l.on v)) then throw .escape
-              pure (some e)
-        let Γ1 := (ls ++ [g]).foldl (fun Γ v => Γ.remove v) { Γ with frames := rest }
-        match r with
-        | none => pure Γ1
-        | some e => (Γ1.remove e.var).declare { e with var := x, depth := rest.length, valid := true }
-  | .use x => do
-      let e ← Γ.lookupValid x
-      pure (if e.kind == .val then Γ else Γ.useShr x)
-  | .drop x => do
-      let e ← Γ.lookupValid x
-      if e.kind != .val && !e.movable then throw .access
-      pure (Γ.remove x)
+  | .call x h op owner name => checkCall t Γ x h op owner name
+  | .coll v h m => checkColl t Γ v h m
+  | .enter s g h op owner name => checkEnter t Γ s g h op owner name
+  | .exit ret => checkExit Γ ret
+  | .use x =>
+      match Γ.lookupValid x with
+      | .error r => .error r
+      | .ok e => .ok (if e.kind == .val then Γ else Γ.useShr x)
+  | .drop x =>
+      match Γ.lookupValid x with
+      | .error r => .error r
+      | .ok e => if e.kind != .val && !e.movable then .error .access else .ok (Γ.remove x)
   | .slot o => Γ.declare ⟨o, .val, .own, [], [], true, Γ.depth⟩
-  | .store o x => do
-      let eo ← Γ.lookupValid o
-      let ex ← Γ.lookupValid x
-      if eo.kind != .val || ex.kind != .val || o == x then throw .illformed
-      if !ex.self.all (Loan.depthOK Γ eo.depth) then throw .escape
-      let Γ1 := Γ.remove x
-      pure { Γ1 with ents := Γ1.ents.map fun e => if e.var == o then { e with self := e.self ++ ex.self, param := e.param ++ ex.self } else e }
-  | .send x => do
-      let e ← Γ.lookupValid x
-      if e.kind != .val && !e.movable then throw .access
-      if !sendOK t fl e then throw .notSend
-      pure (Γ.remove x)
-  | .share x => do
-      let e ← Γ.lookupValid x
-      if !shareOK t fl e then throw .notSend
-      pure (if e.kind == .val then Γ else Γ.useShr x)
+  | .store o x => checkStore Γ o x
+  | .send x =>
+      match Γ.lookupValid x with
+      | .error r => .error r
+      | .ok e =>
+        if e.kind != .val && !e.movable then .error .access
+        else if !sendOK t fl e then .error .notSend
+        else .ok (Γ.remove x)
+  | .share x =>
+      match Γ.lookupValid x with
+      | .error r => .error r
+      | .ok e =>
+        if !shareOK t fl e then .error .notSend
+        else .ok (if e.kind == .val then Γ else Γ.useShr x)
 
 def check (t : Table) (fl : Flags) : SEnv → List Stmt → Except (Nat × Rej) SEnv
   | Γ, [] => .ok Γ
@@ -448,13 +501,13 @@ def DState.dropRt (σ : DState) (r : Rt) : Except Fault DState :=
   | .pool => .ok (r.arenas.foldl (fun σ a => σ.killArena a) σ)
   | _ => .ok σ
 
-/-- a guard's `reset` / (conservatively) a further `scope()`: its epoch and everything above ends, a new one starts -/
+/-- a guard's `reset` / (conservatively) a further `scope()`: its epoch and everything above ends, a new one starts
+    (and is the guard's own from now on) -/
 def DState.guardReset (σ : DState) (g : Var) (r : Rt) : DState :=
   match r.epoch with
   | some e =>
     if (σ.epochs r.arena).contains e then
-      let (e', σ') := (σ.endFrom r.arena e).push r.arena
-      σ'.set g { r with epoch := some e' }
+      ((σ.endFrom r.arena e).push r.arena).2.set g { r with epoch := some σ.next }
     else σ
   | none => σ
 
@@ -477,8 +530,7 @@ def runCall (σ : DState) (x h : Var) (op : Op) : Except Fault DState :=
         if r.kind.allocates then .ok (σ.set x (Rt.val r.arena (σ.epochs r.arena).getLast?)) else .error .stuck
     | .mkGuard =>
         if r.kind.scopes then
-          let (e, σ1) := σ.push r.arena
-          .ok (σ1.set x ⟨.guard, r.arena, some e, false, []⟩)
+          .ok ((σ.push r.arena).2.set x ⟨.guard, r.arena, some σ.next, false, []⟩)
         else .error .stuck
     | .guardScope =>
         if r.kind == .guard then .ok ((σ.guardReset h r).set x (Rt.hdl .scope r.arena)) else .error .stuck
@@ -524,12 +576,12 @@ def runStmt (fl : Flags) (σ : DState) : Stmt → Except Fault DState
         else if σ.epochs r.arena == [] then .error .deadArena
         else match op with
           | .enterScoped =>
-              let (e, σ1) := σ.push r.arena
-              .ok { (σ1.set g ⟨.guard, r.arena, some e, false, []⟩).set s (Rt.hdl .scope r.arena) with frames := g :: σ.frames }
+              .ok { ((σ.push r.arena).2.set g ⟨.guard, r.arena, some σ.next, false, []⟩).set s (Rt.hdl .scope r.arena)
+                    with frames := g :: σ.frames }
           | .enterAligned =>
               .ok { (σ.set g (Rt.hdl .scope r.arena)).set s (Rt.hdl .scope r.arena) with frames := g :: σ.frames }
           | _ => .error .stuck
-  | .exit ret x =>
+  | .exit _ =>
       match σ.frames with
       | [] => .error .stuck
       | g :: rest =>
@@ -538,13 +590,7 @@ def runStmt (fl : Flags) (σ : DState) : Stmt → Except Fault DState
         | some rg =>
           match σ.dropRt rg with
           | .error f => .error f
-          | .ok σ1 =>
-            let σ2 := { σ1 with frames := rest }
-            match ret with
-            | none => .ok σ2
-            | some r => match σ2.get r with
-                | none => .error .stuck
-                | some rr => .ok (σ2.set x rr)
+          | .ok σ1 => .ok { σ1 with frames := rest }
   | .use x =>
       match σ.get x with
       | none => .error .stuck
